@@ -3,9 +3,10 @@
 set -u
 patch=$1; shift
 cd /repo || exit 2
+if [ -n "$(git status --porcelain)" ]; then echo "refusing: /repo has uncommitted changes"; exit 2; fi
 git apply "$patch" || { echo "patch does not apply"; exit 2; }
 for p in "$@"; do
   /verif/bin/kvc check $p -noevidence 2>&1 | grep -E "^VIOLATION|^KNOWN|^kvc check" | cut -c1-260
 done
-git -C /repo checkout -- . 
+git -C /repo checkout -- .
 git -C /repo status --short | head -3
